@@ -24,6 +24,9 @@ subprocess.call([sys.executable, "/verif/tools/evalseed.py", prop, wt, demo_dir]
 for n in ns:  # keep the earlier verdict as history
     p = f"/verif/seeded/{prop}-{n}/meta.json"
     m = json.load(open(p))
+    for key, val in hist[n].items():  # keep what evalseed does not know about (kind, cross_checks, note ...)
+        if key not in m:
+            m[key] = val
     old = hist[n].get("check_result", {})
     prev = hist[n].get("history", "")
     if isinstance(old, dict) and old.get("verdict") != m["check_result"]["verdict"]:
